@@ -44,6 +44,16 @@ func (in *inliner) normalizeLocalStructs(pkgs []*packages.Package, excluded func
 	}
 }
 
+// tuplePos: position i of a tuple assignment / definition whose left side is
+// a candidate and whose right side is another candidate (src) or a keyed
+// composite literal (lit).
+type tuplePos struct {
+	i   int
+	lhs *types.Var
+	src *types.Var
+	lit *ast.CompositeLit
+}
+
 type sroaCand struct {
 	v      *types.Var
 	st     *types.Struct
@@ -54,6 +64,9 @@ type sroaCand struct {
 	ok     bool
 	// `d := c`: the value starts as a copy of another candidate
 	copyFrom *types.Var
+	// the copy is one position of a tuple definition (`a, err := r0, r1`)
+	tuple *ast.AssignStmt
+	decls []ast.Stmt
 }
 
 func (n *normCtx) sroa(fd *ast.FuncDecl) {
@@ -82,9 +95,83 @@ func (n *normCtx) sroa(fd *ast.FuncDecl) {
 	// the source of a copy, the target of `c = T{k: v, ..}`
 	allowed := map[*ast.Ident]bool{}
 	whole := map[*ast.AssignStmt]*types.Var{}
+	tuples := map[*ast.AssignStmt][]tuplePos{}
 	ast.Inspect(fd.Body, func(x ast.Node) bool {
 		switch s := x.(type) {
 		case *ast.AssignStmt:
+			if len(s.Lhs) == len(s.Rhs) && len(s.Lhs) > 1 && (s.Tok == token.ASSIGN || s.Tok == token.DEFINE) {
+				// tuple forms: `r0, r1 = v, err` / `r0, r1 = T{..}, nil` /
+				// `v, err := r0, r1` with operands that have no effect
+				pure := true
+				for _, r := range s.Rhs {
+					switch x := r.(type) {
+					case *ast.Ident, *ast.BasicLit:
+					case *ast.CompositeLit:
+						for _, e := range x.Elts {
+							kv, isKV := e.(*ast.KeyValueExpr)
+							if !isKV {
+								pure = false
+							} else if _, isId := kv.Key.(*ast.Ident); !isId {
+								pure = false
+							}
+						}
+					default:
+						if s.Tok == token.DEFINE {
+							pure = false
+						}
+					}
+				}
+				if !pure {
+					return true
+				}
+				var tp []tuplePos
+				for i := range s.Lhs {
+					lid, ok := s.Lhs[i].(*ast.Ident)
+					if !ok || lid.Name == "_" {
+						continue
+					}
+					var lv *types.Var
+					if s.Tok == token.DEFINE {
+						lv, _ = pk.TypesInfo.Defs[lid].(*types.Var)
+					} else {
+						lv, _ = pk.TypesInfo.Uses[lid].(*types.Var)
+					}
+					if lv == nil {
+						continue
+					}
+					if _, isPtr := lv.Type().(*types.Pointer); isPtr {
+						continue
+					}
+					named, st := newStruct(lv.Type())
+					if named == nil {
+						continue
+					}
+					switch r := s.Rhs[i].(type) {
+					case *ast.Ident:
+						src, _ := pk.TypesInfo.Uses[r].(*types.Var)
+						if src == nil || !types.Identical(src.Type(), lv.Type()) {
+							continue
+						}
+						if s.Tok == token.DEFINE {
+							cands[lv] = &sroaCand{v: lv, st: st, named: named, ok: true, copyFrom: src, tuple: s}
+						} else {
+							allowed[lid] = true
+						}
+						allowed[r] = true
+						tp = append(tp, tuplePos{i: i, lhs: lv, src: src})
+					case *ast.CompositeLit:
+						if s.Tok == token.DEFINE || !types.Identical(pk.TypesInfo.TypeOf(r), lv.Type()) {
+							continue
+						}
+						allowed[lid] = true
+						tp = append(tp, tuplePos{i: i, lhs: lv, lit: r})
+					}
+				}
+				if len(tp) > 0 {
+					tuples[s] = tp
+				}
+				return true
+			}
 			if s.Tok == token.ASSIGN && len(s.Lhs) == 1 && len(s.Rhs) == 1 {
 				id, ok := s.Lhs[0].(*ast.Ident)
 				lit, isLit := s.Rhs[0].(*ast.CompositeLit)
@@ -235,6 +322,48 @@ func (n *normCtx) sroa(fd *ast.FuncDecl) {
 			}
 		}
 	}
+	// a tuple statement is rewritten as a whole or not at all
+	for changed := true; changed; {
+		changed = false
+		for _, tp := range tuples {
+			allOK := true
+			for _, p := range tp {
+				if c := cands[p.lhs]; c == nil || !c.ok {
+					allOK = false
+				}
+				if p.src != nil {
+					if c := cands[p.src]; c == nil || !c.ok {
+						allOK = false
+					}
+				}
+			}
+			if allOK {
+				continue
+			}
+			for _, p := range tp {
+				if c := cands[p.lhs]; c != nil && c.ok {
+					c.ok, changed = false, true
+				}
+				if p.src != nil {
+					if c := cands[p.src]; c != nil && c.ok {
+						c.ok, changed = false, true
+					}
+				}
+			}
+		}
+		for _, c := range cands {
+			if c.copyFrom == nil {
+				continue
+			}
+			src := cands[c.copyFrom]
+			if c.ok && (src == nil || !src.ok) {
+				c.ok, changed = false, true
+			}
+			if !c.ok && src != nil && src.ok {
+				src.ok, changed = false, true
+			}
+		}
+	}
 	q := &qualifier{pk: pk, file: n.file}
 	typeExpr := func(t types.Type) ast.Expr {
 		e, ok := parseTypeExpr(types.TypeString(t, q.qual))
@@ -314,7 +443,7 @@ func (n *normCtx) sroa(fd *ast.FuncDecl) {
 		if (ordered[i].copyFrom == nil) != (ordered[j].copyFrom == nil) {
 			return ordered[i].copyFrom == nil
 		}
-		return ordered[i].def.Pos() < ordered[j].def.Pos()
+		return candPos(ordered[i]) < candPos(ordered[j])
 	})
 	for _, c := range ordered {
 		if !c.ok {
@@ -326,7 +455,7 @@ func (n *normCtx) sroa(fd *ast.FuncDecl) {
 		}
 		n.in.nfresh++
 		c.prefix = fmt.Sprintf("inlS%d_%s_", n.in.nfresh, c.v.Name())
-		pos := c.def.Pos()
+		pos := candPos(c)
 		inits := map[string]ast.Expr{}
 		var order []string
 		if c.lit != nil {
@@ -373,7 +502,11 @@ func (n *normCtx) sroa(fd *ast.FuncDecl) {
 			c.ok = false
 			continue
 		}
-		repl[c.def] = out
+		if c.tuple != nil {
+			c.decls = out
+		} else {
+			repl[c.def] = out
+		}
 		names[c.v] = fieldNames
 	}
 	for as, v := range whole {
@@ -418,6 +551,91 @@ func (n *normCtx) sroa(fd *ast.FuncDecl) {
 			continue
 		}
 		repl[as] = []ast.Stmt{&ast.AssignStmt{Lhs: lhs, TokPos: pos, Tok: token.ASSIGN, Rhs: rhs}}
+	}
+	for as, tp := range tuples {
+		usable := true
+		for _, p := range tp {
+			if c := cands[p.lhs]; c == nil || !c.ok || names[p.lhs] == nil {
+				usable = false
+			}
+			if p.src != nil {
+				if c := cands[p.src]; c == nil || !c.ok || names[p.src] == nil {
+					usable = false
+				}
+			}
+		}
+		if !usable {
+			continue
+		}
+		pos := as.Pos()
+		at := map[int]tuplePos{}
+		for _, p := range tp {
+			at[p.i] = p
+		}
+		var out []ast.Stmt
+		var lhs, rhs []ast.Expr
+		anyNew := false
+		bad := false
+		for i := range as.Lhs {
+			p, isCand := at[i]
+			if !isCand {
+				lhs = append(lhs, as.Lhs[i])
+				rhs = append(rhs, as.Rhs[i])
+				if id, ok := as.Lhs[i].(*ast.Ident); ok && as.Tok == token.DEFINE && (id.Name == "_" || pk.TypesInfo.Defs[id] != nil) {
+					if id.Name != "_" {
+						anyNew = true
+					}
+				}
+				continue
+			}
+			c := cands[p.lhs]
+			if as.Tok == token.DEFINE {
+				// the copy's variables are declared (with the source's
+				// fields as initial values) in front of what is left
+				out = append(out, c.decls...)
+				continue
+			}
+			fn := names[p.lhs]
+			given := map[string]ast.Expr{}
+			if p.lit != nil {
+				for _, e := range p.lit.Elts {
+					kv := e.(*ast.KeyValueExpr)
+					given[kv.Key.(*ast.Ident).Name] = kv.Value
+				}
+			}
+			for k := 0; k < c.st.NumFields(); k++ {
+				f := c.st.Field(k)
+				lhs = append(lhs, &ast.Ident{NamePos: pos, Name: fn[f.Name()]})
+				switch {
+				case p.src != nil:
+					rhs = append(rhs, &ast.Ident{NamePos: pos, Name: names[p.src][f.Name()]})
+				case given[f.Name()] != nil:
+					rhs = append(rhs, given[f.Name()])
+				default:
+					switch f.Type().Underlying().(type) {
+					case *types.Pointer, *types.Interface, *types.Slice, *types.Map, *types.Chan, *types.Signature:
+						rhs = append(rhs, &ast.Ident{NamePos: pos, Name: "nil"})
+					default:
+						te := typeExpr(f.Type())
+						if te == nil {
+							bad = true
+						}
+						rhs = append(rhs, &ast.StarExpr{Star: pos, X: &ast.CallExpr{Fun: &ast.Ident{NamePos: pos, Name: "new"}, Lparen: pos, Args: []ast.Expr{te}, Rparen: pos}})
+					}
+				}
+			}
+		}
+		if bad {
+			continue
+		}
+		if len(lhs) > 0 {
+			tok := as.Tok
+			if tok == token.DEFINE && !anyNew {
+				tok = token.ASSIGN
+			}
+			out = append(out, &ast.AssignStmt{Lhs: lhs, TokPos: pos, Tok: tok, Rhs: rhs})
+		}
+		repl[as] = out
 	}
 	if len(repl) == 0 {
 		return
@@ -467,4 +685,11 @@ func (n *normCtx) sroa(fd *ast.FuncDecl) {
 	for v := range names {
 		n.in.res.Normalized = append(n.in.res.Normalized, fmt.Sprintf("local %s of the new struct type %s in %s replaced by one variable per field", v.Name(), cands[v].named.Obj().Name(), fd.Name.Name))
 	}
+}
+
+func candPos(c *sroaCand) token.Pos {
+	if c.def != nil {
+		return c.def.Pos()
+	}
+	return c.tuple.Pos()
 }
